@@ -70,6 +70,42 @@ def supports_native_sliding_window(chunks, window):
     return True
 
 
+def _rechunk_for_native_window(expr, chunks_ok):
+    """Re-validate a native windowed reduction's input layout at lowering time.
+
+    The banded plans are only correct while the blocks along the sliding axis
+    stay shorter than the window (``chunks_ok``).  That was checked when the
+    rewrite fired, but later rewrites of the input may have re-chunked it;
+    split over-long blocks back down (a pure split) rather than compute on a
+    layout the plan does not support.
+    """
+    from dask_array._rechunk import divide_to_width
+
+    axis = expr.sliding_axis
+    chunks = expr.array.chunks[axis]
+    if any(math.isnan(c) for c in chunks) or chunks_ok(chunks, expr.window):
+        return None
+    array = expr.array.rechunk({axis: divide_to_width(chunks, expr.window - 1)})
+    return type(expr)(array, *expr.operands[1:])
+
+
+def _sliding_layout_ok(chunks, window):
+    # every output-emitting block must end before its first window does
+    out_len = sum(chunks) - (window - 1)
+    start = 0
+    for c in chunks:
+        if start >= out_len:
+            break
+        if c > window - 1:
+            return False
+        start += c
+    return True
+
+
+def _moving_layout_ok(chunks, window):
+    return max(chunks) <= window - 1
+
+
 def _prepared_values(part, nan_identity, with_count, out_dtype):
     values = np.asarray(part)
     count = None
@@ -296,6 +332,9 @@ class MovingWindowReduction(ArrayExpr):
             hi += (len(middle) + c + (sum(x.chunks[axis][g : h + 1]) if g is not None else 0)) * cross
         return TransferBytes(lo, hi)
 
+    def _lower(self):
+        return _rechunk_for_native_window(self, _moving_layout_ok)
+
     @cached_property
     def _block_plan(self):
         """Per block along the sliding axis: (start, size, band offset
@@ -466,6 +505,9 @@ class SlidingWindowReduction(ArrayExpr):
             lo += middles + (band_offset + out_len) * cross
             hi += middles + (chunks[i] + sum(chunks[b : e + 1])) * cross
         return TransferBytes(lo, hi)
+
+    def _lower(self):
+        return _rechunk_for_native_window(self, _sliding_layout_ok)
 
     @cached_property
     def _block_plan(self):
